@@ -257,7 +257,62 @@ fn rand_pair(c: &mut Choices) -> (Val, Val) {
     }
 }
 
+/// both operands are one and the same object (`let x = v; x op x`): the result must be that of `v op v`
+fn check_same(ctx: &mut Ctx, section: &str, op: &str, a: &Val) -> Vec<Violation> {
+    if op == "*" {
+        if let Val::Str(_) | Val::Arr(_) = a {
+            // kinds only; no repetition can arise from x * x
+        }
+    }
+    let text = format!("let x = {}; x {} x", lit(a), op);
+    guard(section, "src", &text);
+    let expect = ops::binop(op, a, a);
+    ctx.case(hash_str(&text), true);
+    let case = json!({"op": op, "a": a, "same": true});
+    let mut out = Vec::new();
+    match outcome_of(&text) {
+        Ok(got) => {
+            if !ops::satisfies(&expect, &got) {
+                out.push(Violation::new(section, format!("same-object:{}:{}:{}", op, a.kind(), class_of(&expect, &got)), format!("`{}`: expected {}, got {}", text, ops::show_expect(&expect), show_got(&got)), case));
+            }
+        }
+        Err(e) if e.starts_with("PANIC ") => {
+            let sig = e[6..].split('|').take(3).collect::<Vec<_>>().join("|");
+            out.push(Violation::new(section, sig, format!("`{}`: got a crash: {}", text, e), case));
+        }
+        Err(e) => ctx.infra(format!("C09 harness: `{}` did not run: {}", text, e)),
+    }
+    out
+}
+
 pub fn run(ctx: &mut Ctx) {
+    {
+        let pool = pool();
+        let mut k = 0u64;
+        for op in ops::BINOPS {
+            for a in &pool {
+                k += 1;
+                if !ctx.mine(k) {
+                    continue;
+                }
+                ctx.class("table:same-object");
+                for v in check_same(ctx, "same-object", op, a) {
+                    ctx.report(v);
+                }
+                // and through a container that is compared with a copy sharing the element
+                if matches!(*op, "==" | "!=") {
+                    let text = format!("let x = {}; let a = [x]; let b = [x]; a {} b", lit(a), op);
+                    let expect = ops::binop(op, &Val::Arr(vec![a.clone()]), &Val::Arr(vec![a.clone()]));
+                    ctx.case(hash_str(&text), true);
+                    if let Ok(got) = outcome_of(&text) {
+                        if !ops::satisfies(&expect, &got) {
+                            ctx.report(Violation::new("same-object", format!("shared-element:{}:{}", op, a.kind()), format!("`{}`: expected {}, got {}", text, ops::show_expect(&expect), show_got(&got)), json!({"op": op, "a": a, "same": true})));
+                        }
+                    }
+                }
+            }
+        }
+    }
     let pool = pool();
     let mut idx = 0u64;
     for op in ops::BINOPS {
@@ -326,7 +381,9 @@ pub fn replay(section: &str, case: &Value, ctx: &mut Ctx) {
         Ok(v) => v,
         Err(_) => return ctx.infra("C09 replay: bad case"),
     };
-    let vs = if case.get("law").is_some() {
+    let vs = if case.get("same").is_some() {
+        check_same(ctx, section, case["op"].as_str().unwrap_or("=="), &a)
+    } else if case.get("law").is_some() {
         let b: Val = serde_json::from_value(case["b"].clone()).unwrap_or(Val::Null);
         check_laws(ctx, section, &a, &b)
     } else if case.get("b").is_some() {
